@@ -100,6 +100,18 @@ def corpus(b, rng, quick):
         c.append((["dadd", "--base", base, "-i", "%d %b", "8 Mar", "+1d"], None))
         c.append((["dround", "--base", base, "-i", "%m/%d", "03/08", "Fri"], None))
         c.append((["dseq", "--base", base, "-i", "%m-%d", "03-08", "03-12"], None))
+    # --base must reach every value a tool reads, also the ones that are not on the input lines: the expression of dgrep, the second
+    # operand of dtest, the reference of ddiff
+    for base in ("2012-01-01", "1999-07-01", "2040-01-01"):
+        c.append((["dgrep", "-i", "%m-%d", "--base", base, ">=04-01"], "03-15\n05-15\n12-31\n"))
+        c.append((["dgrep", "-i", "%m-%d", "--base", base, "<06-01 && >=02-29"], "03-15\n05-15\n02-29\n"))
+        c.append((["dgrep", "-i", "%d %b", "--base", base, "==15 Mar"], "15 Mar x\n16 Mar y\n"))
+        c.append((["dtest", "-i", "%m-%d", "--base", base, "03-15", "--lt", "05-15"], None))
+        c.append((["dtest", "-i", "%m-%d", "--base", base, "02-29", "--cmp", "03-01"], None))
+        c.append((["ddiff", "-i", "%m-%d", "--base", base, "01-01", "-f", "%d"], "03-01\n12-31\n"))
+        c.append((["dsort", "-i", "%d.%m.", "--base", base], "31.12. b\n29.02. a\n01.03. c\n"))
+        c.append((["dseq", "-i", "%m-%d", "--base", base, "02-27", "03-02", "-f", "%F %a"], None))
+        c.append((["dround", "-i", "%m-%d", "--base", base, "02-28", "+1d", "-f", "%F"], None))
     # the repository's own test invocations that are fully specified
     n_ctst = 0
     for f in sorted(glob.glob(os.path.join(core.REPO, "test", "*.ctst"))):
@@ -122,7 +134,7 @@ def corpus(b, rng, quick):
         c.append(([tool] + argv, (stdin + "\n") if stdin is not None else None))
         n_ctst += 1
     if quick:
-        keep = [x for i, x in enumerate(c) if i < 140 or i % 5 == 0]
+        keep = [x for i, x in enumerate(c) if i < 140 or i % 5 == 0 or "--base" in x[0] or x[0][0] == "strptime"]
         c = keep
     return c, n_ctst
 
